@@ -84,6 +84,42 @@ Proof.
   constructor; [eapply Forall_ok_drop; eauto|auto].
 Qed.
 
+(* ---------- decode-after-encode and re-encode, unconditionally (they hold even where the Python raises) ---------- *)
+Lemma map_AB {A B} (f : A -> B) (g : B -> A) (n : A -> A) l :
+  Forall (fun x => g (f x) = n x /\ f (n x) = f x) l -> map g (map f l) = map n l /\ map f (map n l) = map f l.
+Proof. induction 1 as [|x r [Hx Hx'] _ [IH IH']]; cbn; [now split|]. now rewrite Hx, Hx', IH, IH'. Qed.
+Lemma ty_AB : forall t, ty_deserialize (ty_to_serial t) = ty_nf t /\ ty_to_serial (ty_nf t) = ty_to_serial t.
+Proof.
+  intro t. induction t using ty_ind2 with
+    (Q := fun a => arg_deserialize (arg_to_serial a) = arg_nf a /\ arg_to_serial (arg_nf a) = arg_to_serial a);
+    cbn [ty_to_serial ty_nf ty_deserialize arg_to_serial arg_nf arg_deserialize]; rewrite ?Nnat.Nat2N.id; try (split; reflexivity).
+  - assert (E : map (map ty_deserialize) (map (map ty_to_serial) rows) = map (map ty_nf) rows /\
+                map (map ty_to_serial) (map (map ty_nf) rows) = map (map ty_to_serial) rows).
+    { induction H as [|l r Hl _ [IH IH']]; cbn; [now split|]. destruct (map_AB _ _ _ l Hl) as [A B]. now rewrite A, B, IH, IH'. }
+    destruct E as [A B]. now rewrite A, B.
+  - destruct (map_AB _ _ _ i H) as [A B], (map_AB _ _ _ o H0) as [A' B']. now rewrite A, B, A', B'.
+  - destruct (map_AB _ _ _ i H) as [A B], (map_AB _ _ _ o H0) as [A' B']. now rewrite A, B, A', B'.
+  - destruct (map_AB _ _ _ args H) as [A B]. now rewrite A, B.
+  - destruct (map_AB _ _ _ args H) as [A B]. now rewrite A, B.
+  - destruct IHt as [A B]. now rewrite A, B.
+  - destruct (map_AB _ _ _ l H) as [A B]. now rewrite A, B.
+  - now rewrite param_roundtrip.
+Qed.
+Lemma arg_AB : forall a, arg_deserialize (arg_to_serial a) = arg_nf a /\ arg_to_serial (arg_nf a) = arg_to_serial a.
+Proof. intro a. destruct (ty_AB (TOpaque 0%N 0%N [a] Copyable)) as [A B]. cbn in A, B. split; congruence. Qed.
+Lemma row_AB l : map ty_deserialize (map ty_to_serial l) = map ty_nf l /\ map ty_to_serial (map ty_nf l) = map ty_to_serial l.
+Proof. apply map_AB, Forall_forall. intros x _. apply ty_AB. Qed.
+Lemma rows_AB l : map (map ty_deserialize) (map (map ty_to_serial) l) = map (map ty_nf) l /\
+                  map (map ty_to_serial) (map (map ty_nf) l) = map (map ty_to_serial) l.
+Proof. induction l as [|x r [IH IH']]; cbn; [now split|]. destruct (row_AB x) as [A B]. now rewrite A, B, IH, IH'. Qed.
+Lemma args_AB l : map arg_deserialize (map arg_to_serial l) = map arg_nf l /\ map arg_to_serial (map arg_nf l) = map arg_to_serial l.
+Proof. apply map_AB, Forall_forall. intros x _. apply arg_AB. Qed.
+Lemma func_AB f : func_deserialize (func_to_serial f) = func_nf f /\ func_to_serial (func_nf f) = func_to_serial f.
+Proof.
+  destruct f as [i o r]. unfold func_deserialize, func_to_serial, func_nf. cbn.
+  destruct (row_AB i) as [A B], (row_AB o) as [A' B']. now rewrite A, B, A', B'.
+Qed.
+
 (* ---------- Type / TypeArg: the round trip ---------- *)
 Definition ty_rt (t : ty) : Prop :=
   ty_deserialize (ty_to_serial t) = ty_nf t /\ ty_to_serial (ty_nf t) = ty_to_serial t /\
@@ -176,7 +212,6 @@ Proof.
   intro t. induction t using ty_ind2 with (Q := fun a => CoreA a -> arg_nf a = a); intro C; inversion C; subst; cbn;
     try reflexivity.
   - f_equal. eapply mapmap_id_FP; eassumption.
-  - f_equal; eapply map_id_FP; eassumption.
   - f_equal; eapply map_id_FP; eassumption.
   - f_equal; eapply map_id_FP; eassumption.
   - now rewrite IHt.
